@@ -573,11 +573,10 @@ theorem cyc_g0 (a : Fp12 F) (h : IsCyc12 ξ a) (hne : NonZero12 a) :
   unfold g0Defect at key
   linear_combination key
 
-/-- **decompression, regular case** (g2 ≠ 0): from any operand carrying the four retained coefficients of a cyclotomic
-    element a, fp12_back_cyc returns a -/
-theorem fp12BackCyc_eq (h2 : (2 : F) ≠ 0) (a x : Fp12 F) (h : IsCyc12 ξ a)
+/-- the formula before the repair, regular case (g2 ≠ 0): it did return a -/
+theorem fp12BackCycOld_regular (h2 : (2 : F) ≠ 0) (a x : Fp12 F) (h : IsCyc12 ξ a)
     (h01 : x.c0.c1 = a.c0.c1) (h02 : x.c0.c2 = a.c0.c2) (h10 : x.c1.c0 = a.c1.c0) (h12 : x.c1.c2 = a.c1.c2)
-    (hg2 : a.c1.c0 ≠ 0) : fp12BackCyc fo nor false x = a := by
+    (hg2 : a.c1.c0 ≠ 0) : fp12BackCycOld fo nor false x = a := by
   have hne : NonZero12 a := fun hz => hg2 hz.2.2.2.1
   have hg0 := cyc_g0 ξ a h hne
   have hg1 := cyc_g1 ξ a h
@@ -589,26 +588,26 @@ theorem fp12BackCyc_eq (h2 : (2 : F) ≠ 0) (a x : Fp12 F) (h : IsCyc12 ξ a)
     rw [mul_inv_eq_iff_eq_mul₀ h4]
     linear_combination -hg1
   apply Fp12.ext' <;>
-  simp only [fp12BackCyc, fieldOps, rOps_isZero, rOps_add, rOps_sub, rOps_mul, rOps_sqr, rOps_dbl, rOps_inv, rOps_one, h01, h02, h10, h12,
+  simp only [fp12BackCycOld, fieldOps, rOps_isZero, rOps_add, rOps_sub, rOps_mul, rOps_sqr, rOps_dbl, rOps_inv, rOps_one, h01, h02, h10, h12,
     decide_eq_true_eq, hg2, if_false, Bool.false_eq_true, e11]
   linear_combination -hg0
 
-/-- decompression of the identity presented as the identity (the case the C code tests first) -/
-theorem fp12BackCyc_one : fp12BackCyc fo nor true ⟨⟨1, 0, 0⟩, ⟨0, 0, 0⟩⟩ = ⟨⟨1, 0, 0⟩, ⟨0, 0, 0⟩⟩ := by
+/-- the formula before the repair: the identity presented as the element 1 -/
+theorem fp12BackCycOld_one : fp12BackCycOld fo nor true ⟨⟨1, 0, 0⟩, ⟨0, 0, 0⟩⟩ = ⟨⟨1, 0, 0⟩, ⟨0, 0, 0⟩⟩ := by
   apply Fp12.ext' <;>
-  simp [fp12BackCyc, fieldOps]
+  simp [fp12BackCycOld, fieldOps]
 
-/-- **decompression, exceptional case** (g2 = 0, g3 ≠ 0): what the C code computes for g1 is
+/-- the formula BEFORE the repair, exceptional case (g2 = 0, g3 ≠ 0): what it computed for g1 is
     (ξ·g5² + 3·(2·g4·g5) − 2·g3)/g3, and it is the coefficient of a only if g4·(4·g5 − 3·g4) = 0; the correct value is
-    2·g4·g5/g3 (`cyc_g1_exc`). This is finding C10-F8: the statement of the property fails in this branch. -/
-theorem fp12BackCyc_exc_iff (a x : Fp12 F) (h : IsCyc12 ξ a)
+    2·g4·g5/g3 (`cyc_g1_exc`). This was finding C10-F8, repaired in /repo; the current formula is `fp12BackCyc_eq`. -/
+theorem fp12BackCycOld_exc_iff (a x : Fp12 F) (h : IsCyc12 ξ a)
     (h01 : x.c0.c1 = a.c0.c1) (h02 : x.c0.c2 = a.c0.c2) (h10 : x.c1.c0 = a.c1.c0) (h12 : x.c1.c2 = a.c1.c2)
     (hg2 : a.c1.c0 = 0) (hg3 : a.c0.c2 ≠ 0) :
-    (fp12BackCyc fo nor false x).c1.c1 = a.c1.c1 ↔ a.c0.c1 * (4 * a.c1.c2 - 3 * a.c0.c1) = 0 := by
+    (fp12BackCycOld fo nor false x).c1.c1 = a.c1.c1 ↔ a.c0.c1 * (4 * a.c1.c2 - 3 * a.c0.c1) = 0 := by
   have hg1 := cyc_g1 ξ a h
   have hex := cyc_g1_exc ξ a h hg2
   rw [hg2] at hg1
-  simp only [fp12BackCyc, fieldOps, rOps_isZero, rOps_add, rOps_sub, rOps_mul, rOps_sqr, rOps_dbl, rOps_inv, rOps_one, h01, h02, h10, h12,
+  simp only [fp12BackCycOld, fieldOps, rOps_isZero, rOps_add, rOps_sub, rOps_mul, rOps_sqr, rOps_dbl, rOps_inv, rOps_one, h01, h02, h10, h12,
     decide_eq_true_eq, hg2, if_true, if_false, Bool.false_eq_true]
   rw [mul_inv_eq_iff_eq_mul₀ hg3]
   constructor
@@ -621,7 +620,7 @@ theorem cyc_g1_exc_div (a : Fp12 F) (h : IsCyc12 ξ a) (hg2 : a.c1.c0 = 0) (hg3 
   rw [eq_mul_inv_iff_mul_eq₀ hg3]
   linear_combination cyc_g1_exc ξ a h hg2
 
-/-! #### the repaired decompression is total on the cyclotomic subgroup
+/-! #### the decompression is total on the cyclotomic subgroup
 
 Hypotheses on the field: 2 ≠ 0, ξ is not a square, −3 is a square (in fp2 every element of the prime field is one). -/
 
@@ -669,12 +668,12 @@ theorem cyc_compressed_zero (h2 : (2 : F) ≠ 0) (hns : ∀ y : F, y ^ 2 ≠ ξ)
   · exact absurd ⟨z0, z4, z3, z2, hg1, z5⟩ hne
   · linear_combination z0
 
-/-- **the repaired fp12_back_cyc decompresses every element of the cyclotomic subgroup** from any operand that carries
-    its four retained coefficients -/
-theorem fp12BackCycFixed_eq (h2 : (2 : F) ≠ 0) (h3 : (3 : F) ≠ 0) (hns : ∀ y : F, y ^ 2 ≠ ξ) (ω : F) (hω : ω ^ 2 = -3)
+/-- **fp12_back_cyc decompresses every element of the cyclotomic subgroup** from any operand that carries its four
+    retained coefficients -/
+theorem fp12BackCyc_eq (h2 : (2 : F) ≠ 0) (h3 : (3 : F) ≠ 0) (hns : ∀ y : F, y ^ 2 ≠ ξ) (ω : F) (hω : ω ^ 2 = -3)
     (a x : Fp12 F) (h : IsCyc12 ξ a) (hne : NonZero12 a)
     (h01 : x.c0.c1 = a.c0.c1) (h02 : x.c0.c2 = a.c0.c2) (h10 : x.c1.c0 = a.c1.c0) (h12 : x.c1.c2 = a.c1.c2) :
-    fp12BackCycFixed fo nor x = a := by
+    fp12BackCyc fo nor x = a := by
   have hg0 := cyc_g0 ξ a h hne
   by_cases hg2 : a.c1.c0 = 0
   · by_cases hg3 : a.c0.c2 = 0
@@ -682,13 +681,13 @@ theorem fp12BackCycFixed_eq (h2 : (2 : F) ≠ 0) (h3 : (3 : F) ≠ 0) (hns : ∀
       obtain ⟨z4, z5⟩ := cyc_g2g3_zero ξ h2 h3 hns ω hω a h hg2 hg3
       obtain ⟨z0, z1⟩ := cyc_compressed_zero ξ h2 hns ω hω a h hne hg2 hg3 z4 z5
       apply Fp12.ext' <;>
-      simp [fp12BackCycFixed, fieldOps, h01, h02, h10, h12, hg2, hg3, z4, z5, z0, z1]
+      simp [fp12BackCyc, fieldOps, h01, h02, h10, h12, hg2, hg3, z4, z5, z0, z1]
     · -- exceptional branch: g1 = 2·g4·g5/g3
       have hg1 := cyc_g1_exc_div ξ a h hg2 hg3
       have e11 : (a.c0.c1 * a.c1.c2 + a.c0.c1 * a.c1.c2) * (a.c0.c2)⁻¹ = a.c1.c1 := by
         rw [hg1]; ring
       apply Fp12.ext' <;>
-      simp only [fp12BackCycFixed, fieldOps, rOps_isZero, rOps_add, rOps_sub, rOps_mul, rOps_sqr, rOps_dbl, rOps_inv, rOps_one, h01, h02,
+      simp only [fp12BackCyc, fieldOps, rOps_isZero, rOps_add, rOps_sub, rOps_mul, rOps_sqr, rOps_dbl, rOps_inv, rOps_one, h01, h02,
         h10, h12, decide_eq_true_eq, hg2, hg3, if_true, if_false, Bool.false_eq_true, Bool.and_false, Bool.false_and, Bool.true_and,
         decide_true, decide_false, e11]
       rw [hg2] at hg0
@@ -703,7 +702,7 @@ theorem fp12BackCycFixed_eq (h2 : (2 : F) ≠ 0) (h3 : (3 : F) ≠ 0) (hns : ∀
       rw [mul_inv_eq_iff_eq_mul₀ h4]
       linear_combination -hg1
     apply Fp12.ext' <;>
-    simp only [fp12BackCycFixed, fieldOps, rOps_isZero, rOps_add, rOps_sub, rOps_mul, rOps_sqr, rOps_dbl, rOps_inv, rOps_one, h01, h02,
+    simp only [fp12BackCyc, fieldOps, rOps_isZero, rOps_add, rOps_sub, rOps_mul, rOps_sqr, rOps_dbl, rOps_inv, rOps_one, h01, h02,
       h10, h12, decide_eq_true_eq, hg2, if_false, Bool.false_eq_true, Bool.false_and, decide_false, e11]
     linear_combination -hg0
 
